@@ -13,7 +13,7 @@ def loop():
     global _loop
     if _loop is None:
         _loop = asyncio.new_event_loop()
-        asyncio.set_event_loop(_loop)
+    asyncio.set_event_loop(_loop)   # (a SimLoop bench may have unset the current loop meanwhile)
     return _loop
 
 
